@@ -10,6 +10,9 @@ of (algorithm object, state of the global `random` generator).
      that fills the dict is; a dict filled from a set iteration is caught because that iteration is flagged;
   C. no id() / hash() / time / datetime.now / os.urandom / os.getpid in algorithm logic; each existing use must be
      on the allow-list below (by file + enclosing function) or flow only into logging/print calls;
+  E. inside Variator.evolve / Mutation.mutate (and the methods of the same class they call through self) nothing is stored
+     into `self`: operator instances are shared process-wide (the PlatypusConfig defaults, default-argument instances), so
+     state written there makes a seeded run depend on what ran earlier in the interpreter;
   D. no mutable module-level state written from inside functions (`global` statements, mutation of module-level
      containers): such state would live outside the pickled algorithm.
 
@@ -41,6 +44,12 @@ ALLOW_C = {
 # rule B allow-list: (file, enclosing qualname) -> reason
 ALLOW_B = {
     ("__main__.py", "main.split_list"): "command line only: the set's characters go inside a regex class [...], where order is irrelevant",
+}
+
+# rule E allow-list: (file, class) -> reason
+ALLOW_E = {
+    ("operators.py", "Multimethod"): "documented adaptive operator: its probabilities/next_variator are per-instance state of an object that is "
+                                     "constructed with (and pickled inside) one algorithm, never a library default",
 }
 
 SET_CTORS = {"set", "frozenset"}
@@ -423,8 +432,50 @@ class Scan:
                         and n.args[0].id in module_names and n.args[0].id not in local:
                     self.add(n, "D", "next() on module-level iterator `%s`" % n.args[0].id)
 
+    # ---------------- rule E ----------------
+    def rule_e(self):
+        for cls in ast.walk(self.tree):
+            if not isinstance(cls, ast.ClassDef):
+                continue
+            methods = {m.name: m for m in cls.body if isinstance(m, (ast.FunctionDef, ast.AsyncFunctionDef))}
+            roots = [n for n in ("evolve", "mutate") if n in methods]
+            if not roots:
+                continue
+            reach, todo = set(), list(roots)
+            while todo:
+                name = todo.pop()
+                if name in reach or name not in methods:
+                    continue
+                reach.add(name)
+                for n in ast.walk(methods[name]):
+                    if isinstance(n, ast.Call) and isinstance(n.func, ast.Attribute) and isinstance(n.func.value, ast.Name) \
+                            and n.func.value.id == "self":
+                        todo.append(n.func.attr)
+            for name in sorted(reach):
+                for n in ast.walk(methods[name]):
+                    hit = None
+                    if isinstance(n, (ast.Attribute, ast.Subscript)) and isinstance(n.ctx, (ast.Store, ast.Del)):
+                        b = n.value
+                        while isinstance(b, (ast.Attribute, ast.Subscript)):
+                            b = b.value
+                        if isinstance(b, ast.Name) and b.id == "self":
+                            hit = "stores into self.%s" % (_dotted(n) or "...").split(".", 1)[-1] if isinstance(n, ast.Attribute) else "stores into a container held by self"
+                    elif isinstance(n, ast.Call) and isinstance(n.func, ast.Attribute) and n.func.attr in MUTATORS:
+                        b = n.func.value
+                        while isinstance(b, (ast.Attribute, ast.Subscript)):
+                            b = b.value
+                        if isinstance(b, ast.Name) and b.id == "self" and n.func.value is not b:
+                            hit = "calls .%s() on a container held by self" % n.func.attr
+                    if hit:
+                        if (self.rel, cls.name) in ALLOW_E:
+                            self.stats["allowlisted"] += 1
+                        else:
+                            self.add(n, "E", "%s.%s %s: hidden state on a (possibly shared) operator instance" % (cls.name, name, hit))
+            self.stats["operator_methods_checked"] = self.stats.get("operator_methods_checked", 0) + len(reach)
+
     def run(self):
         self.imports()
+        self.rule_e()
         self.rule_a()
         self.rule_b()
         self.rule_c()
